@@ -81,6 +81,12 @@ def run(tier, seed):
         op = ops[o["id"]]
         v.case(json.dumps([o["mode"], op["op"], op["b"], op["c"]])[:3000])
         case = {"operation": op["op"], "mode": o["mode"], "args": E.short([op["b"], op["c"]], 300)}
+        if o["mode"].startswith("refused:"):
+            if o["connect_ok"]:
+                raise lib.ToolError("the scripted refusal of the handshake was accepted by the connection")
+            if o["result_ok"] or o["stray_bytes_on_the_wire"]:
+                v.violation("an operation on a connection whose handshake was refused did not fail, or wrote to the wire", {**case, "returned_ok": o["result_ok"], "bytes_written": o["stray_bytes_on_the_wire"]})
+            continue
         if o["mode"] == "unconnected":
             if o["result_ok"]:
                 v.violation("an operation before the handshake completed did not fail", case)
